@@ -421,7 +421,14 @@ impl<'a> SsaAnalysisState<'a> {
         }
       }
       pattern::MatchingPattern::Id(id, ()) => self.use_id(&id.name, id.loc, false),
-      pattern::MatchingPattern::Wildcard { .. } | pattern::MatchingPattern::Or { .. } => {}
+      pattern::MatchingPattern::Wildcard { .. } => {}
+      // An or-pattern nested in a later alternative: all of its alternatives reference the
+      // bindings of the first alternative as well.
+      pattern::MatchingPattern::Or { patterns, .. } => {
+        for p in patterns {
+          self.visit_matching_pattern_bindings_as_uses(p);
+        }
+      }
     }
   }
 
